@@ -32,7 +32,7 @@ fn verif_replay_c16() {
     if mode == "replay" {
         let w = &inp["input"];
         if w["kind"] == "law" {
-            let l = w["lambda"].as_f64().unwrap(); let n = 400_000usize; let seed = w["seed"].as_u64().unwrap();
+            let l = w["lambda"].as_f64().unwrap(); let n = w["n"].as_u64().unwrap_or(400_000) as usize; let seed = w["seed"].as_u64().unwrap();
             let e = ExpRestricted01::new(l);
             let mut r = ScriptRng { vals: vec![], pos: 0, s: (seed ^ 0x5DEECE66D) | 1 };
             let mut xs: Vec<f64> = (0..n).map(|_| e.sample(&mut r)).collect();
@@ -90,10 +90,11 @@ fn verif_replay_c16() {
             if !(x >= 0.0 && x < 1.0) { out(true, serde_json::json!({"lambda": l, "script": [], "seed": seed.wrapping_add(i * 2 + 1)}), format!("sample = {x}"), "0 <= sample < 1".into(), cases); return; }
         }
     }
-    // law (NOT decided by the contracts; seeded Kolmogorov-Smirnov smoke test, outside the deductive technique): thorough tier only
-    if thorough {
+    // law (NOT decided by the contracts; seeded Kolmogorov-Smirnov smoke test, outside the deductive technique):
+    // 100_000 samples per rate at the quick tier, 400_000 at the thorough tier; P(sqrt(n) D_n > 2.5) < 1e-5 under the right law
+    {
         for &l in &[1e-9f64, 0.0100503, 0.6931, 1.5, 3.0, 10.0, 30.0] {
-            let n = 400_000usize;
+            let n = if thorough { 400_000usize } else { 100_000usize };
             let e = ExpRestricted01::new(l);
             let mut r = ScriptRng { vals: vec![], pos: 0, s: (seed ^ 0x5DEECE66D) | 1 };
             let mut xs: Vec<f64> = (0..n).map(|_| e.sample(&mut r)).collect();
@@ -103,7 +104,7 @@ fn verif_replay_c16() {
             for (i, x) in xs.iter().enumerate() { let f = cdf(*x); d = d.max((f - i as f64 / n as f64).abs()).max(((i + 1) as f64 / n as f64 - f).abs()); }
             cases += 1;
             let stat = d * (n as f64).sqrt();
-            if stat > 2.5 { out(true, serde_json::json!({"lambda": l, "script": [], "seed": seed, "kind": "law"}), format!("Kolmogorov-Smirnov sqrt(n) D_n = {stat:.2} for lambda = {l} over {n} seeded samples"), "< 2.5 (exponential law of rate lambda conditioned on [0,1))".into(), cases); return; }
+            if stat > 2.5 { out(true, serde_json::json!({"lambda": l, "script": [], "seed": seed, "kind": "law", "n": n}), format!("Kolmogorov-Smirnov sqrt(n) D_n = {stat:.2} for lambda = {l} over {n} seeded samples"), "< 2.5 (exponential law of rate lambda conditioned on [0,1))".into(), cases); return; }
         }
     }
     out(false, serde_json::Value::Null, "all samples in [0,1)".into(), "".into(), cases);
